@@ -115,12 +115,18 @@ def run(ctx):
     rnd.shuffle(progs)
     live = [dict(p) for p in progs[:ctx.pick(90, 1200)]]
     # the directed shape of the late-send scenario is always part of the sample
-    live.append({"pre": 0, "resps": [{"id": 1, "ok": True, "chain": False}], "gor": ["h1"]})
-    live.append({"pre": 1, "resps": [{"id": 1, "ok": True, "chain": False}, {"id": 2, "ok": False, "chain": False}],
+    live.append({"pre": 0, "resps": [{"id": 1, "ok": True, "chain": False, "cerr": False}], "gor": ["h1"]})
+    # the consumer of the last outstanding message fails: completion must still run
+    live.append({"pre": 2, "resps": [{"id": 2, "ok": True, "chain": False, "cerr": False},
+                                     {"id": 1, "ok": True, "chain": False, "cerr": True}], "gor": []})
+    live.append({"pre": 1, "resps": [{"id": 1, "ok": True, "chain": False, "cerr": True},
+                                     {"id": 2, "ok": False, "chain": False, "cerr": False}],
                  "gor": ["h1"]})
     for i, p in enumerate(live):
-        p["at"] = rnd.randrange(len(p["resps"]) + 1) if i < len(live) - 2 else (0 if i == len(live) - 2 else 1)
-    relay = [dict(p, gor=[]) for p in progs if p["pre"] >= 1 and not any(x["chain"] for x in p["resps"])]
+        p["at"] = rnd.randrange(len(p["resps"]) + 1) if i < len(live) - 3 else (0 if i == len(live) - 3 else 1)
+    # the relay's consumers are gate's own: no follow-ups, no consumer errors
+    relay = [dict(p, gor=[], resps=[dict(x, chain=False, cerr=False) for x in p["resps"]])
+             for p in progs if p["pre"] >= 1]
     seen, rel = set(), []
     for p in relay:
         k = json.dumps(p, sort_keys=True)
@@ -128,8 +134,10 @@ def run(ctx):
             seen.add(k)
             rel.append(p)
     rel = rel[:ctx.pick(30, 400)]
-    rel.append({"pre": 3, "resps": [{"id": 3, "ok": True, "chain": False}, {"id": 1, "ok": False, "chain": False},
-                                    {"id": 3, "ok": True, "chain": False}, {"id": 2, "ok": True, "chain": False}],
+    rel.append({"pre": 3, "resps": [{"id": 3, "ok": True, "chain": False, "cerr": False},
+                                    {"id": 1, "ok": False, "chain": False, "cerr": False},
+                                    {"id": 3, "ok": True, "chain": False, "cerr": False},
+                                    {"id": 2, "ok": True, "chain": False, "cerr": False}],
                 "gor": []})
     with open(ctx.path("progs.json"), "w") as fh:
         json.dump(live, fh)
